@@ -1523,9 +1523,13 @@ func (s *DefaultSpec) visitSameBodyChildren(cb visitFunc) {
 func (s *DefaultSpec) decode(content *hcl.BodyContent, blockLabels []blockLabel, ctx *hcl.EvalContext) (cty.Value, hcl.Diagnostics) {
 	val, diags := s.Primary.decode(content, blockLabels, ctx)
 	if val.IsNull() {
+		// Whether the default is used depends on the primary value, so
+		// the result inherits any marks of a (null) primary value.
+		_, primaryMarks := val.Unmark()
 		var moreDiags hcl.Diagnostics
 		val, moreDiags = s.Default.decode(content, blockLabels, ctx)
 		diags = append(diags, moreDiags...)
+		val = val.WithMarks(primaryMarks)
 	}
 	return val, diags
 }
